@@ -160,7 +160,7 @@ fn nested_scalar(f: Fmt, shape: Shape, d: usize, core: Option<bool>) -> Vec<u8> 
 /// other headers than the one-entry fix markers: 16- and 32-bit length headers,
 /// and collections of 16 entries (the nested child among 15 scalar siblings).
 /// The count of collections around the scalar is still exactly `d`.
-pub const MSGPACK_STYLES: [&str; 5] = ["hdr16", "hdr32", "wide_deepest", "wide_outermost", "wide_random"];
+pub const MSGPACK_STYLES: [&str; 7] = ["hdr16", "hdr32", "wide_deepest", "wide_outermost", "wide_random", "very_wide_outermost", "very_wide_deepest"];
 
 pub fn nested_msgpack_styled(shape: Shape, d: usize, style: &str) -> Vec<u8> {
     let mut rng = Rng::new(match shape {
@@ -178,6 +178,9 @@ pub fn nested_msgpack_styled(shape: Shape, d: usize, style: &str) -> Vec<u8> {
             "hdr32" => (2, 1, 0),
             "wide_deepest" if i + 1 == d => (1, 16, 15),
             "wide_outermost" if i == 0 => (1, 16, 0),
+            // more siblings than the depth limit has levels
+            "very_wide_outermost" if i == 0 => (1, 1100, 1099),
+            "very_wide_deepest" if i + 1 == d => (1, 1100, 0),
             "wide_random" => match srng.below(6) {
                 0 => (1, 16 + srng.below(3), srng.below(16)),
                 1 => (2, 16, srng.below(16)),
@@ -197,7 +200,9 @@ pub fn nested_msgpack_styled(shape: Shape, d: usize, style: &str) -> Vec<u8> {
         }
         let sibling = |k: usize, out: &mut Vec<u8>| {
             if !*a {
-                out.extend_from_slice(&[0xa2, b'k', b'a' + k as u8]);
+                // distinct five-byte keys k0000, k0001, ...
+                out.push(0xa5);
+                out.extend_from_slice(format!("k{k:04}").as_bytes());
             }
             out.push(0x01);
         };
